@@ -32,6 +32,9 @@ pub struct Case {
     /// selects the junk value a re-used target buffer is pre-filled with
     #[serde(default)]
     pub junk: u8,
+    /// poisoned-neighbour relation: (position key of the replaced non-last row, variant/feature selector)
+    #[serde(default)]
+    pub poison: (u16, u8),
 }
 
 #[derive(Clone, Copy, Debug, PartialEq)]
@@ -83,9 +86,9 @@ pub fn case_strategy(tier: Tier, dom: Dom) -> impl Strategy<Value = Case> {
             proptest::collection::vec(any::<u16>(), m),
             proptest::collection::vec(any::<u16>(), 0..=(2 * m).min(24)),
             any::<[u8; 3]>(),
-            (any::<u64>(), any::<u8>()),
+            (any::<u64>(), any::<u8>(), (any::<u16>(), any::<u8>())),
         )
-            .prop_map(|(train, w, noise, fresh, picks, perm, dup, opt, (seed, junk))| Case {
+            .prop_map(|(train, w, noise, fresh, picks, perm, dup, opt, (seed, junk, poison))| Case {
                 train,
                 w,
                 noise,
@@ -96,6 +99,7 @@ pub fn case_strategy(tier: Tier, dom: Dom) -> impl Strategy<Value = Case> {
                 opt,
                 seed,
                 junk,
+                poison,
             })
     })
 }
@@ -350,4 +354,26 @@ pub fn view_layouts(b: &ViewBacking) -> Vec<(&'static str, ArrayView2<'_, f64>)>
         ("layout_view_col_strided", b.wide_cols.slice(s![.., 1..2 * p + 1;2])),
         ("layout_view_reversed", b.reversed.slice(s![..;-1, ..])),
     ]
+}
+
+/// The poisoned row for the poisoned-neighbour relation: a copy of `row` in which one feature (or every
+/// feature) is NaN, +inf, -inf, +1e300 or -1e300. Returns (class label, row).
+pub fn poison_row(row: &[f64], selector: u8) -> (&'static str, Vec<f64>) {
+    let p = row.len().max(1);
+    let (label, v): (&'static str, f64) = match selector % 5 {
+        0 => ("poison_nan", f64::NAN),
+        1 => ("poison_pos_inf", f64::INFINITY),
+        2 => ("poison_neg_inf", f64::NEG_INFINITY),
+        3 => ("poison_pos_1e300", 1e300),
+        _ => ("poison_neg_1e300", -1e300),
+    };
+    let mut r = row.to_vec();
+    let whole = (selector / 5) % 3 == 0;
+    let j = ((selector / 15) as usize) % p;
+    for (k, x) in r.iter_mut().enumerate() {
+        if whole || k == j {
+            *x = v;
+        }
+    }
+    (label, r)
 }
